@@ -188,4 +188,23 @@ theorem needed_pass_eq_build_pass (cfg : Cfg) (hb : cfg.mode = .build) (a : FS) 
   simp at hqS
   exact hqo' hqS
 
+theorem singleton_sub_generated (cfg : Cfg) (a : FS) (wd : Path) (o : Path) (bs : List (Block Directive)) :
+    ∀ q, q ∈ [o] → q ∈ generated cfg a wd o bs := by
+  intro q hq
+  simp only [List.mem_singleton] at hq
+  subst hq
+  simp [generated]
+
+/-- where the executable side condition answers `true`: only-if-needed equals build -/
+theorem needed_eq_build_where_checked (cfg : Cfg) (hb : cfg.mode = .build) (a : FS) (src : Path) (first : Bool)
+    (hs : srcSafeB cfg a src = some true) :
+    (runPass cfg a src first).1 = (runPass cfg.toNeeded a src first).1 ∧
+    ((runPass cfg a src first).1 = .ok → ∀ q, (runPass cfg a src first).2.file? q = (runPass cfg.toNeeded a src first).2.file? q) := by
+  obtain ⟨content, o, bs, hfile, hout, hbs, _, hsafe, hprobes⟩ := srcSafeB_spec cfg a src hs
+  have hnd := (srcSafeB_output cfg a src hs o hout).1
+  rw [hb] at hbs
+  exact needed_pass_eq_build_pass cfg hb a src first content o bs hfile hout hnd hbs
+    (Safe.mono cfg a _ bs _ _ (singleton_sub_generated cfg a _ o bs) hsafe)
+    (ProbesOK.mono cfg a _ bs _ _ (singleton_sub_generated cfg a _ o bs) hprobes)
+
 end Txt
